@@ -36,6 +36,11 @@ CASES = [
  ("H27", "src/v5/publish.rs", "        } else if header.remaining_len == 3 {", "        } else if 3 == header.remaining_len {", "v5acks,v5body|^$"),
  ("H28", "src/v5/publish.rs", "let payload = if remaining_len > 0 {", "let payload = if remaining_len >= 1 {", "v5body|^$"),
  ("H29", "src/common/types.rs", "        if value.is_empty() {", "        if value.len() == 0 {", "topic|k_filter_plain"),
+ ("H30", "src/common/poll.rs", "                                *var_idx += 1;", "                                *var_idx = *var_idx + 1;", "|k_poll_(header|body)_step$"),
+ ("H31", "src/common/poll.rs", "                            if byte & 0x80 == 0 {", "                            if byte < 0x80 {", "|k_poll_(header|body)_step$"),
+ ("H32", "src/common/poll.rs", "*var_int |= (u32::from(byte) & 0x7F) << (7 * u32::from(*var_idx));", "*var_int += u32::from(byte & 0x7F) << (7 * u32::from(*var_idx));", "|k_poll_(header|body)_step$"),
+ ("H33", "src/common/poll.rs", "if header.remaining_len() != 0 {\n                            return Poll::Ready(Err(Error::InvalidRemainingLength.into()));", "if header.remaining_len() > 0 {\n                            return Poll::Ready(Err(Error::InvalidRemainingLength.into()));", "|k_poll_(header|body)_step$"),
+ ("X3", "src/common/poll.rs", "                            } else if *var_idx < 3 {", "                            } else if *var_idx < 4 {", "|k_poll_(header|body)_step$"),
  ("X1", "src/v3/connect.rs", "let retain = (connect_flags & 0b00100000) != 0;", "let retain = (connect_flags & 0b01000000) != 0;", "v3|^$"),
  ("X2", "src/v3/connect.rs", "let last_will = if connect_flags & 0b100 != 0 {", "let last_will = if (connect_flags >> 3) & 1 == 1 {", "v3|^$"),
 ]
@@ -67,7 +72,7 @@ def main():
         open(p, "w").write(s.replace(old, new, 1))
         rc, out = sh("cargo test --workspace --offline 2>&1 | grep 'test result' ", cwd=d, env=dict(CARGO_TARGET_DIR=os.path.join(W, "target")))
         ok = bool(re.search(r"test result: ok\. 73 passed", out))
-        units, kani = cover.split("|")
+        units, kani = cover.split("|", 1)
         rc, out = sh("%s/vcheck 'MUT:%s|%s' quick 2>&1 | grep -a '^VIOLATION\\|^UNDECIDED\\|obligations discharged' | cut -c1-300" % (V, units, kani),
                      env=dict(VERIF_REPO=d, VERIF_EVIDENCE_DIR=os.path.join(W, "ev"), VERIF_PLAYBACKS="0"))
         viol = "VIOLATION" in out
